@@ -252,6 +252,8 @@ func c20Build(s c20Scenario, log *c20Log) goldmark.Markdown { return c20BuildSha
 func c20BuildShared(s c20Scenario, log *c20Log, shared []util.PrioritizedValue) goldmark.Markdown {
 	var newOpts []goldmark.Option
 	var later []func(m goldmark.Markdown)
+	// probes with the same name are ONE object registered several times with different priorities
+	objects := map[string]interface{}{}
 	for pi, p := range s.Probes {
 		p := p
 		var po parser.Option
@@ -271,7 +273,13 @@ func c20BuildShared(s c20Scenario, log *c20Log, shared []util.PrioritizedValue) 
 			}
 			po, ro = c20ListOption(s.Cat, shared...)
 		} else {
-			po, ro = c20ListOption(s.Cat, c20Component(s.Cat, p, log))
+			comp := c20Component(s.Cat, p, log)
+			if obj, seen := objects[p.Name]; seen {
+				comp = util.Prioritized(obj, p.Prio)
+			} else {
+				objects[p.Name] = comp.Value
+			}
+			po, ro = c20ListOption(s.Cat, comp)
 		}
 		switch p.Route {
 		case 0:
@@ -551,6 +559,10 @@ func runC20(c *core.Ctx) {
 		pool := pools[cat]
 		docs := []string{"@x\n"}
 		switch cat {
+		case "block":
+			// also: the trigger on a line indented four columns that follows a paragraph line (probes accept indented lines and
+			// may interrupt a paragraph), at top level and inside a block quote
+			docs = []string{"@x\n", "para\n    @x\n", "> para\n>     @x\n", "para\n@x\n"}
 		case "block-free":
 			docs = []string{"@x\n", "    @x\n"}
 		case "inline":
@@ -603,6 +615,29 @@ func runC20(c *core.Ctx) {
 							}
 						}
 					}
+				}
+			}
+		}
+	}
+	// one object registered twice: P0 at two priorities with P1 between, before or after them; every registration counts on
+	// its own (tried / run at its priority), whichever route each registration takes
+	for _, cat := range []string{"block", "inline", "paragraph-transformer", "ast-transformer", "renderer"} {
+		pool := pools[cat]
+		doc := map[string]string{"block": "@x\n", "inline": "a @ b\n", "paragraph-transformer": "a\n", "ast-transformer": "a\n", "renderer": "a@b\n"}[cat]
+		for _, pr := range c20Choose(pool, 3) {
+			for rt := 0; rt < 27; rt++ {
+				for ac := 0; ac < 4; ac++ {
+					if (cat == "paragraph-transformer" || cat == "ast-transformer") && ac > 0 {
+						continue
+					}
+					s := c20Scenario{Cat: cat, Doc: doc}
+					s.Probes = []c20Probe{
+						{Name: "P0", Prio: pr[0], Route: rt % 3, Accept: ac&1 != 0},
+						{Name: "P1", Prio: pr[1], Route: rt / 3 % 3, Accept: ac&2 != 0},
+						{Name: "P0", Prio: pr[2], Route: rt / 9 % 3, Accept: ac&1 != 0},
+					}
+					run(s)
+					c.Count("scenarios_with_one_object_registered_twice", 1)
 				}
 			}
 		}
